@@ -59,6 +59,8 @@ def plan(tier, seed):
     for n in (4, 5, 6):
         for i in range(8):
             t.append(("sets", n, (1000 if q else 12000) // 8, seed * 100 + 10 * n + i))
+    for i in range(8):
+        t.append(("buffers", 40 if q else 500, seed * 100 + i))
     # invalid sets that look like graph-state generators: R = identity (or a permutation), S asymmetric
     t.append(("graphform", 3, "all", seed))
     for ch in wp.chunks(list(range(64)), 8):
@@ -70,13 +72,15 @@ def plan(tier, seed):
     return t
 
 
-def judge_set(p, gens, n, confs, apis=True, fmt="mat"):
+def judge_set(p, gens, n, confs, apis=True, fmt="mat", stab_obj=None):
     """gens: list of n (x,z,s), arbitrary."""
     from htstabilizer.stabilizer import Stabilizer
     from htstabilizer.stabilizer_circuits import get_preparation_circuit, get_readout_circuit
     valid = groups.is_valid_stabilizer(gens, n)
     case = {"kind": "set", "n": n, "gens": [to_str(g, n) for g in gens], "fmt": fmt, "confs": list(confs)}
-    if fmt == "mat":
+    if stab_obj is not None:
+        ok, s = True, stab_obj
+    elif fmt == "mat":
         R, S, ph = ws.matrices(gens, n)
         ok, s = call(Stabilizer, (R, S, ph))
     else:
@@ -287,6 +291,57 @@ def work(task):
             judge_set(p, gens, n, [confs[i % len(confs)]], fmt=("mat", "str+")[i % 2])
             p.counters["mode " + MODES[i % len(MODES)]] += 1
         p.sample({"n": n, "operators": [to_str(g, n) for g in gens], "mode": MODES[(cnt - 1) % len(MODES)]})
+    elif kind == "buffers":
+        # the caller re-uses its own buffers: int8 matrices / a Graph object edited in place between requests, a new
+        # Stabilizer object built from the same buffers each time; every answer must fit the contents at call time
+        from htstabilizer.stabilizer import Stabilizer
+        from htstabilizer.graph import Graph
+        _, cnt, seed = task
+        rnd = random.Random(seed)
+        for i in range(cnt):
+            n = rnd.randint(3, 6)
+            conn = rnd.choice(oconn.configs_for(n))
+            if i % 2 == 0:
+                gens = [(x, z, 0) for x, z, s_ in make_set(n, rnd, "valid")]
+                R, S, ph = ws.matrices(gens, n, np.int8)
+                for step in range(4):
+                    cur = [(sum((int(R[q, j]) & 1) << q for q in range(n)), sum((int(S[q, j]) & 1) << q for q in range(n)), 0) for j in range(n)]
+                    judge_set(p, cur, n, [conn], stab_obj=Stabilizer((R, S)))
+                    k = rnd.randrange(3)
+                    if k == 0:
+                        (R if rnd.getrandbits(1) else S)[rnd.randrange(n), rnd.randrange(n)] ^= 1         # single bit (usually invalid afterwards)
+                    elif k == 1:
+                        g2 = [(x, z, 0) for x, z, s_ in make_set(n, rnd, "valid")]
+                        R2, S2, _ = ws.matrices(g2, n, np.int8)
+                        R[:] = R2
+                        S[:] = S2                                                                        # buffer refilled with another valid stabilizer
+                    else:
+                        j1, j2 = rnd.sample(range(n), 2)
+                        R[:, j1] ^= R[:, j2]
+                        S[:, j1] ^= S[:, j2]                                                             # same group, other generators
+                p.counters["re-used matrix buffers"] += 1
+            else:
+                code = rnd.randrange(1, 1 << (n * (n - 1) // 2))
+                rows = lcorbit.adj_rows(code, n)
+                g = Graph(np.array([[(rows[a] >> b) & 1 for b in range(n)] for a in range(n)], dtype=np.int8))
+                for step in range(4):
+                    judge_set(p, lcorbit.graph_gens(lcorbit.code_of(rows, n), n), n, [conn], stab_obj=Stabilizer(g))
+                    if rnd.getrandbits(1):
+                        v = rnd.randrange(n)
+                        g.local_complementation(v)
+                        rows = lcorbit.complement(rows, v, n)
+                    else:
+                        a, b = rnd.sample(range(n), 2)
+                        if (rows[a] >> b) & 1:
+                            g.remove_edge(a, b)
+                            rows[a] &= ~(1 << b)
+                            rows[b] &= ~(1 << a)
+                        else:
+                            g.add_edge(a, b)
+                            rows[a] |= 1 << b
+                            rows[b] |= 1 << a
+                p.counters["re-used Graph objects"] += 1
+        p.sample({"stratum": "caller re-uses and edits its own matrix buffers / Graph object between requests", "n": n, "connectivity": conn})
     elif kind == "graphform":
         _, n, what, seed = task
         rnd = random.Random("%s-%s-%s" % (n, what, seed))
